@@ -1,15 +1,19 @@
 #!/bin/bash
 # usage: cross_matrix.sh [-j N] [benign diffs...]  -- every check against every stored behaviour-preserving change (not only the property it was written for):
-# all must stay silent (exit 0). One worktree per diff, all checks run in it.
+# all must stay silent (exit 0). One worktree and ONE load of the module per diff (jamverif check all).
 cd /verif
-J=6; if [ "${1:-}" = "-j" ]; then J=$2; shift 2; fi
+J=4; if [ "${1:-}" = "-j" ]; then J=$2; shift 2; fi
 diffs=("$@"); [ ${#diffs[@]} -eq 0 ] && diffs=(mutants/*/benign_*.diff)
-ids=$(python3 -c "import json;print(' '.join(c['property_id'] for c in json.load(open('MANIFEST.json'))['checks']))")
-export IDS="$ids" BIN=${JV_BIN:-/verif/bin/jamverif}
-one() { p=$1
-  out=$(JV_BIN=$BIN LINES_MAX=3 /verif/scripts/mutant.sh $p $IDS 2>&1)
-  bad=$(echo "$out" | grep -B0 -A3 "exit=[12]" | grep -v "^--" | cut -c1-260 | tr '\n' ' ')
-  if [ -z "$bad" ]; then echo "OK   $p"; else echo "BAD  $p :: $bad"; fi; }
+export BIN=${JV_BIN:-/verif/bin/jamverif}
+one() { p=$(readlink -f $1)
+  WT=$(mktemp -d /tmp/jv-x.XXXXXX); SCR=$(mktemp -d /tmp/jv-xs.XXXXXX)
+  git -C /repo worktree add --detach "$WT" HEAD >/dev/null 2>&1 || { echo "BAD  $1 :: worktree failed"; return; }
+  if ! git -C "$WT" apply "$p" 2>/dev/null; then echo "BAD  $1 :: patch does not apply"; else
+    out=$(JAMVERIF_REPO="$WT" JAMVERIF_SCRATCH="$SCR" $BIN check all 2>&1)
+    bad=$(echo "$out" | grep "exit=[12]" | tr '\n' ' ')
+    if [ -z "$bad" ]; then echo "OK   $1"; else echo "BAD  $1 :: $bad :: $(echo "$out" | grep -m3 'violated:\|ERROR' | sed "s#$WT/##g" | cut -c1-220 | tr '\n' ' ')"; fi
+  fi
+  git -C /repo worktree remove --force "$WT" >/dev/null 2>&1; rm -rf "$WT" "$SCR"; }
 export -f one
 printf '%s\n' "${diffs[@]}" | xargs -P $J -L 1 bash -c 'one "$@"' _ | sort > /tmp/cross_matrix.out
 cat /tmp/cross_matrix.out
